@@ -11,6 +11,7 @@ import Hw.Io.SyntheticDump
 import Hw.Io.SyntheticDumpLemmas
 import Hw.Io.SyntheticFilter
 import Hw.Io.SyntheticFilterLemmas
+import Hw.Io.SyntheticWFAll
 namespace Hw.Props.C07
 open Hw Hw.Syn Hw.Topo
 
@@ -235,6 +236,44 @@ theorem C07_dump_structure (t : Topo) :
       ∃ r, (toDump t).objs[0]? = some r ∧ r.type = tMACHINE ∧ r.depth = 0 ∧ r.parent = -1 ∧ r.id = 0) ∧
     ((toDump t).levels.length = (toDump t).depth + 6 ∧ (toDump t).typeDepths.length = tMAX) :=
   ⟨toDump_ids t, toDump_id_is_position t, toDump_root t, toDump_levels_listed t⟩
+
+/-! ### build_wf — general (unbounded depth, arities, memory children, index sequences) -/
+
+/-- **build_wf, clause by clause, for EVERY abstract topology** that satisfies the decidable side condition `topoOK`
+(positive arities, normal non-Machine level types, PU level last and only there, no memory on PUs, PU os_indexes = `puIdx`,
+cache levels carry the depth/kind of their type; the driver evaluates it on every topology `buildTopo` returns and hwloc
+agrees with): every clause of `Hw.Topo.WF` named in `provedTopClauses` / `provedObjClauses` holds for `toDump t` — the tree
+links (parent, children arrays, sibling links and ranks, memory-children lists: heads and doubly linked order), depth and
+level tables (root level, PU level deepest, every level listed and non-empty, level types), PU cpusets and NUMA nodesets
+are singletons of the os_index, memory children share their parent's cpuset, cache and group attributes, allowed sets,
+unique gp_index, object count.  No bound on the depth, the arities, the number of memory children or the index values. -/
+theorem C07_build_wf_clauses (t : Topo) (h : topoOK t = true) :
+    (∀ c ∈ topClauses, c.1 ∈ provedTopClauses → c.2 (toDump t) (mkAux (toDump t)) = true) ∧
+    (∀ c ∈ objClauses, c.1 ∈ provedObjClauses → ∀ o ∈ (toDump t).objs, c.2 (toDump t) (mkAux (toDump t)) o = true) :=
+  ⟨top_clauses_proved t (topoOK_OK t h), obj_clauses_proved t (topoOK_OK t h)⟩
+
+/-- **build_wf, partial**: for every such topology the whole conjunction `WF (toDump t)` follows from the clauses that are
+NOT yet proved in general (`restOK`: the executable check of exactly those clauses; they stay table-only —
+C07_build_wf_bounded — and oracle-checked per case).  Missing for the full theorem: see `C07_build_wf_unproved_clauses`. -/
+theorem C07_build_wf_partial (t : Topo) (h : topoOK t = true) (hr : restOK (toDump t) = true) : WF (toDump t) :=
+  wf_of_rest t (topoOK_OK t h) hr
+
+/-- exactly which clauses remain unproved in general -/
+theorem C07_build_wf_unproved_clauses :
+    (topClauses.map (·.1)).filter (fun n => !provedTopClauses.contains n) =
+      ["numa-exists", "levels-cover-objects", "level-entries-valid", "type-depth-inverse", "pu-osindex-unique",
+       "numa-osindex-unique", "levels-in-tree-order"] ∧
+    (objClauses.map (·.1)).filter (fun n => !provedObjClauses.contains n) =
+      ["children-counts", "in-its-level", "set-in-parent", "cpuset-is-disjoint-union-of-children", "memcache-nodeset",
+       "nodeset-decomposition", "pu-allowed", "numa-allowed", "total-memory", "siblings-ordered"] := by
+  decide
+
+/-- non-vacuity: the whole bounded family satisfies the side condition, and so does a 5-level topology outside it
+(Package:3 [2 NUMA, one with a memory-side cache] / L3:2 / Core:2 / PU:2) -/
+example : wfFamily.all topoOK = true := by decide
+example : topoOK (orderTopo [] [{ type := tPACKAGE, arity := 3, mem := [⟨1024, 0⟩, ⟨2048, 512⟩] },
+    { type := tL1 + 2, arity := 2, cdepth := 3, ctype := 0, size := 1048576 }, { type := tCORE, arity := 2 }, { type := tPU, arity := 2 }]
+    (List.range 24) (List.range 6)) = true := by decide
 
 /-! ### attached NUMA nodes and type filters -/
 
